@@ -11,7 +11,7 @@ from z3 import (BitVec, BitVecVal, BitVecSort, Bool, BoolVal, Real, RealVal, Rea
                 Function, Solver, simplify, is_true, is_false, is_bv_value, ULT, ULE, UGT, UGE, LShR, SignExt, ZeroExt,
                 Extract, BV2Int, ToReal, sat, unsat, unknown, is_bool, is_bv, is_real, is_int)
 
-CLANG_FLAGS = ['-O1', '-fno-vectorize', '-fno-slp-vectorize', '-fno-unroll-loops', '-ffp-contract=off',
+CLANG_FLAGS = ['-O1', '-fno-inline', '-fno-vectorize', '-fno-slp-vectorize', '-fno-unroll-loops', '-ffp-contract=off',
                '-fno-builtin-memset', '-S', '-emit-llvm']
 
 
@@ -1224,14 +1224,19 @@ class Eval:
     err_objs = None
 
     def check_msg(s, st, msg, how):
-        t = msg.single() if isinstance(msg, P) else None
-        if t is Ellipsis or t is None:
-            s.oblig.append((st.pc, BoolVal(False), 'error message is NULL or not a single literal (%s)' % how)); return
-        obj = t[0]
-        if obj.startswith('g:'):
-            g = s.mod.globals.get(obj[2:])
-            if g and g['init'] is not None and g['init'].kind == 'agg' and g['init'].elems and g['init'].elems[0].v != 0: return
-            s.oblig.append((st.pc, BoolVal(False), 'error message literal is empty (%s)' % how))
+        """every possible message pointer is a non-empty string literal"""
+        if not isinstance(msg, P):
+            s.oblig.append((st.pc, BoolVal(False), 'error message is not a pointer (%s)' % how)); return
+        for g, t in msg.alts:
+            if is_false(g): continue
+            if t is None:
+                s.oblig.append((mk_and([st.pc, g]), BoolVal(False), 'error message is NULL (%s)' % how)); continue
+            obj = t[0]; ok = False
+            if obj.startswith('g:'):
+                gl = s.mod.globals.get(obj[2:])
+                if gl and gl['init'] is not None and gl['init'].kind == 'agg' and gl['init'].elems and gl['init'].elems[0].v != 0: ok = True
+            if not ok:
+                s.oblig.append((mk_and([st.pc, g]), BoolVal(False), 'error message is not a non-empty string literal (%s)' % how))
 
     def propagate_error(s, st, dest, src):
         """xrl_propagate_error(dest, src): src must be non-NULL; *dest = src if dest && !*dest"""
